@@ -41,7 +41,8 @@ let handle_score line kind args obs =
     if in_domain a && in_domain b then begin
       bump "less/valid-pair";
       let s = bool_str (rank_lt (rank a) (rank b)) in
-      if s <> obs then report_spec line (with_key (key_of [-128] [a; b]) s)
+      (* Less is right at the int8 boundary too (only Negate / IncrementMateDistance wrap there): no key *)
+      if s <> obs then report_spec line s
     end else bump "less/invalid-operand"
   | ("negate" | "inc"), [t; m; b] ->
     let a = score_of t m b in
@@ -52,7 +53,18 @@ let handle_score line kind args obs =
     let a = score_of t1 m1 b1 and b = score_of t2 m2 b2 in
     let r = if kind = "max" then smax a b else smin a b in
     bump kind;
-    if score_str r <> obs then report_mismatch line (score_str r)
+    if score_str r <> obs then report_mismatch line (score_str r);
+    (* specification: the result is one of the operands and no operand lies above (max) / below (min) it
+       in the rank order - at every mate distance, the int8 boundary included *)
+    if in_domain a && in_domain b then begin
+      let sa = score_str a and sb = score_str b in
+      let ra = rank a and rb = rank b in
+      let ok =
+        if obs = sa then (if kind = "max" then not (rank_lt ra rb) else not (rank_lt rb ra))
+        else if obs = sb then (if kind = "max" then not (rank_lt rb ra) else not (rank_lt ra rb))
+        else false in
+      if not ok then report_spec line ("the " ^ kind ^ " of the operands in the rank order")
+    end
   | "negrev", [t1; m1; b1; t2; m2; b2] ->
     (* property monitor on the implementation: obs = "<Less(a,b)> <Less(-b,-a)>" *)
     let a = score_of t1 m1 b1 and b = score_of t2 m2 b2 in
